@@ -12,9 +12,14 @@
    (fuel has no counterpart in Python: it bounds the while loop).
 
    These proofs are meant to break when one of the Python functions changes its
-   meaning: the loop lemma takes the translated loop test and body as they are
-   generated (matched from the goal, so that renamed locals or an introduced
-   temporary do not matter) and compares them with the steps of the model. *)
+   meaning, and to keep checking when it is only written differently: the loop
+   lemmas ([level_while], [level_for]) take the translated loop test and body as
+   they are generated (matched from the goal), for the counting `while` as well as
+   for `for end_pos in range(ngram, len + 1)`, over any tuple of loop-carried
+   variables (the invariant is stated through the continuation of the loop, so the
+   number, names and order of the variables do not matter; in the `while` shape
+   end_pos must be the last of them); renamed locals, introduced temporaries and
+   local names for the read-only tables are lets that the proofs reduce away. *)
 From Coq Require Import List Arith Bool NArith ZArith Lia.
 From Pcfg Require Import KernelRt OmenSpec OmenLevel OmenRt OmenRtProofs OmenLevelProofs.
 From PcfgGen Require Import OmenLevel_gen.
